@@ -19,6 +19,60 @@ DETECT = {
     "C20a": ("C20", "get-changed-system:overlapping-requests:queue-order", ""),
     "C20b": ("C20", "get-changed-system:/invocations/:state", ""),
 }
+
+DETECT.update({
+    # round 2 (fresh agents on the repaired tree; ids ...c / ...d)
+    "C02c": ("C02", "in-lock-chain-broken:mem / status-history:two-claims-no-release:mem", ""),
+    "C02d": ("C02", "yielded-without-claim:{mem,sqlite}", ""),
+    "C03c": ("C03", "stranded:recover/*:at=*_RECOVERY/q1:after=push:crash=yes", "needed strengthening: the *_RECOVERY known-finding patterns were narrowed (q1 only after the *_RECOVERY write itself)"),
+    "C03d": ("C03", "stranded:run/pprchild:at=RUNNING/q0", "needed strengthening: scenario run/pprchild (the dying runner is a pool worker of a live PersistentProcessRunner parent with stand-in processes)"),
+    "C04c": ("C04", "left-in-recovery-status:lost-race:pending:*", ""),
+    "C04d": ("C04", "scan-selects-live:running:sqlite / live-work-touched:running:sqlite", ""),
+    "C05c": ("C05", "success-without-readable-result / success-with-wrong-result:json (also C15 ident:raised)", "needed strengthening: enums declared inside another class (and a module-level namesake) in the value generators"),
+    "C05d": ("C05", "failed-without-readable-exception", "needed strengthening: fault injection in the result / exception write (storage error, interrupt, encoding error)"),
+    "C06c": ("C06", "two-running-same-key:ARGUMENTS:*", ""),
+    "C06d": ("C06", "poll-raised:InvocationStatusTransitionError / blocked-or-left-stranded:*", ""),
+    "C08c": ("C08", "sched:dequeued-twice / proc:dequeued-twice", ""),
+    "C08d": ("C08", "seq:order-or-loss:sqlite", ""),
+    "C10c": ("C10", "history:filed-under-other-invocation:*", ""),
+    "C10d": ("C10", "history:extra-entry / history:missing-entry", ""),
+    "C11c": ("C11", "after-stop:PENDING:owned", ""),
+    "C11d": ("C11", "stop-never-completes:join-on-waiting-thread:awaited-child-was-claimed-by-this-runner", ""),
+    "C13c": ("C13", "occurrence-not-launched:event:*:concurrent-loops:mem", ""),
+    "C13d": ("C13", "shared-condition:and-trigger-launched-fewer / shared-condition:occurrence-left-pending", "needed strengthening: scenario with two triggers sharing a condition (single + AND) and staggered arrivals"),
+    "C16c": ("C16", "diverge:later-observation:readout-after:value (blocking set)", ""),
+    "C16d": ("C16", "diverge:return:t_claim_run:value", ""),
+    "C19c": ("C19", "execution-count-vs-statement:retry-boundary-race", ""),
+    "C19d": ("C19", "execution-count-vs-statement:sync / execution-counts-differ:sync-vs-mem", ""),
+    "C20c": ("C20", "get-changed-system:/broker/queue:queue-content (state dup_queue)", "needed strengthening: a state in which one id is queued twice"),
+    "C20d": ("C20", "get-changed-system:/calls/:state (state long_args)", "needed strengthening: long inline arguments, every pool value for path ids, undeclared id query parameters"),
+    # round 3 (ids ...e / ...f)
+    "C01e": ("C01", "wrongly-accepted:not-owner", ""),
+    "C01f": ("C02", "in-lock-chain-broken:mem", "an interleaving defect: not visible to C01 (sequential quantifier), caught by C02"),
+    "C03e": ("C03", "stranded:run/pprchild:at=RUNNING/q0", ""),
+    "C03f": ("C03", "stranded:kill/running:at=KILLED/q1:after=push", ""),
+    "C05e": ("C05", "failed-without-readable-exception / failed-with-wrong-exception", ""),
+    "C05f": ("C05", "final-result-returned-on-failed", "needed strengthening: superseded-execution scenario (the killed runner's old execution stores its outcome late)"),
+    "C07e": ("C07", "backends-disagree:{ARGUMENTS,KEYS} / expected-raise:KEYS:not-raised", ""),
+    "C07f": ("C07", "expected-fresh:*:reused / backends-disagree", "needed strengthening: give-back operations (claimed invocation re-routed / set to RETRY) in the histories"),
+    "C09e": ("C09", "mem-ready-set-inconsistent", ""),
+    "C09f": ("C09", "tree-never-completes:slots=1|2", ""),
+    "C12e": ("C12", "margin-not-respected", ""),
+    "C12f": ("C12", "two-authorised:margin-0.0 / system:two-authorised:margin-zero", ""),
+    "C13e": ("C13", "trigger-loop-raised:RuntimeError:mem", "needed strengthening: every method of the store preemptible (wildcard line specs), two-loop bounded-preemption search on a warm store; the double launch itself needs a preemption inside one source line and is out of reach of line-level yield points"),
+    "C13f": ("C13", "cron:tick-missed", ""),
+    "C14e": ("C14", "dead-worker-still-tracked:mtr / pool-not-at-capacity:mtr", ""),
+    "C14f": ("C14", "heartbeat-for-dead-worker:mtr", ""),
+    "C15e": ("C15", "store:reference-after-foreign-purge:unresolvable:fresh-instance", "needed strengthening: another instance purges the shared store between two serializations of the same content"),
+    "C15f": ("C15", "ident:arguments-not-bound:alldef-* / ident:spelling-changes-identity", "needed strengthening: a task whose parameters all have defaults, called with no argument"),
+    "C17e": ("C17", "bystander-changed:purge:*:sqlite", ""),
+    "C17f": ("C17", "bystander-changed:op:*:sqlite", ""),
+    "C18e": ("C18", "replay-differs:{random,time,uuid}", ""),
+    "C18f": ("C18", "workflows-share-sub-invocation", ""),
+    "C20e": ("C20", "get-changed-system:/broker/queue:queue-content (state dup_queue)", ""),
+    "C20f": ("C20", "get-changed-system:/invocations/:state", ""),
+})
+
 for d in sorted(os.listdir(os.path.join(ROOT, "seeded"))):
     p = os.path.join(ROOT, "seeded", d)
     if not os.path.isdir(p) or not os.path.exists(os.path.join(p, "patch.diff")):
